@@ -216,6 +216,31 @@ func init() {
 				}
 			}
 		}
+		// promoted fields of embedded structs: the field Go's selector rules pick, at any depth
+		{
+			ov := c11over{c11mid: c11mid{c11base{Name: "base", Deep: "deep"}}, Name: "outer"}
+			tw := c11two{c11mid: c11mid{c11base{Name: "base2", Deep: "deep2"}}, c11side: c11side{Name: "side", Side: "s"}}
+			extra := map[string]interface{}{"ov": ov, "pov": &ov, "tw": tw, "ovs": []c11over{ov}, "twm": map[string]*c11two{"k": &tw}}
+			for _, t := range [][2]string{
+				{"ov.Name", ov.Name}, {"pov.Name", ov.Name}, {"ov.Deep", ov.Deep}, {"ovs[0].Name", ov.Name}, {"ovs[0].Deep", ov.Deep},
+				{"tw.Name", tw.Name}, {"tw.Deep", tw.Deep}, {"tw.Side", tw.Side}, {`twm["k"].Name`, tw.Name}, {`twm["k"].Deep`, tw.Deep},
+			} {
+				for _, form := range []string{"[<%= X %>]", "<% let q = X %>[<%= q %>]", "[<%= if ((X) == W) { %>same<% } %>]"} {
+					tm := strings.Replace(strings.Replace(form, "X", t[0], 1), "W", fmt.Sprintf("%q", t[1]), 1)
+					want := "[" + t[1] + "]"
+					if strings.Contains(form, "same") {
+						want = "[same]"
+					}
+					o := runRenderExtra(RCase{Tmpl: tm, Binds: binds}, extra)
+					e.rep.Evaluations++
+					e.Count("promoted-fields")
+					e.Distinct(tm)
+					if o.Class != "OK" || o.Out != want {
+						e.Violate(c11key(t[0], o, strings.Trim(o.Out, "[]")), fmt.Sprintf("%s: Go's %s is %q, the template rendered %q (%s %s)", tm, t[0], t[1], o.Out, o.Class, firstLine(o.Msg)), map[string]interface{}{"tmpl": tm, "observed": o})
+					}
+				}
+			}
+		}
 		// containers of pointers with nil elements and maps with nil pointer values (Go-only data:
 		// decided by the real engine against Go navigation): a nil element cannot be navigated
 		// further - error or empty output, never a panic, never another element
@@ -249,6 +274,25 @@ func init() {
 			}
 		}
 	})
+}
+
+// embedded structs: Go resolves a selector to the shallowest field of that name
+type c11base struct {
+	Name string
+	Deep string
+}
+type c11mid struct{ c11base }
+type c11over struct { // a field declared after the embedded struct, same name: the outer one wins
+	c11mid
+	Name string
+}
+type c11two struct { // two embedded structs, the shallower Name wins whatever the order
+	c11mid
+	c11side
+}
+type c11side struct {
+	Name string
+	Side string
 }
 
 // classify a wrong result: another element's value is worse than a spurious failure
